@@ -271,8 +271,8 @@ reg('breadth_first_search', ['sq'], lambda m, o: {'reached': ('raw', sorted(int(
     seeds='source1', fn=P.breadth_first_search, exact=True, equiv=False)
 reg('get_dag', ['sq'], lambda m, o: {'dag': ('edges', csr_edges(P.get_dag(m, order=np.array(o['order']) if o.get('order') else None)))},
     fn=P.get_dag, exact=True, equiv=False)
-reg('count_triangles', ['sym'], _fn(T.count_triangles, lambda r: {'n': ('iscalar', int(r))}), fn=T.count_triangles, exact=True, parallel=True)
-reg('count_triangles[parallel]', ['sym'], _fn(T.count_triangles, lambda r: {'n': ('iscalar', int(r))}, parallelize=True),
+reg('count_triangles', ['sym', 'sq'], _fn(T.count_triangles, lambda r: {'n': ('iscalar', int(r))}), fn=T.count_triangles, exact=True, parallel=True)
+reg('count_triangles[parallel]', ['sym', 'sq'], _fn(T.count_triangles, lambda r: {'n': ('iscalar', int(r))}, parallelize=True),
     fn=T.count_triangles, exact=True, parallel=True)
 reg('get_clustering_coefficient', ['sym'], _fn(T.get_clustering_coefficient, lambda r: {'c': ('scalar', float(r))}),
     fn=T.get_clustering_coefficient)
